@@ -71,8 +71,8 @@ Print Assumptions C09_key_order.
    not a consequence of the machine being sequential *)
 Local Open Scope N_scope.
 Definition overlap_fields : flds :=
-  FCons (Fld 0 (Some O) false (BObj (FCons (Fld 1 (Some O) false (BInt 1%Z)) FNil)))
- (FCons (Fld 2 (Some O) false (BObj (FCons (Fld 3 (Some O) false (BInt 3%Z)) FNil))) FNil).
+  FCons (Fld 0 (Some (O, O)) false (BObj (FCons (Fld 1 (Some (O, O)) false (BInt 1%Z)) FNil)))
+ (FCons (Fld 2 (Some (O, O)) false (BObj (FCons (Fld 3 (Some (O, O)) false (BInt 3%Z)) FNil))) FNil).
 Definition overlap_sigma : list tid := [([2], O); ([0], O); ([2; 3], O); ([0; 1], O)].
 
 Theorem C09_query_may_overlap :
